@@ -1685,6 +1685,11 @@ fn run(case: &Value) -> Obs {
             return Obs::invalid("stale analysis table");
         }
         obs["an"] = observe_an(&applied, &te_s, &ui_s);
+        tags.push("an-compared".into());
+    } else if case.get("digest").and_then(|d| d.as_str()) == Some(case_digest(case).as_str()) && std::env::args().any(|a| a == "--require-an") {
+        // floor (run_args --require-an): a case exactly as generated must carry the analysis table; a generator that silently
+        // stops producing it (parse failure, panic in compute_an) is an oracle failure, not a quietly weaker run
+        return Obs::new(json!({"an": "missing"})).fail("the generated case carries no analysis table (`an`)", "an-missing");
     }
     let mut o = Obs::new(obs).trivial(!nontrivial);
     o.tags = tags;
